@@ -18,7 +18,7 @@ PROPS = {
     "C01": {
         "title": "exactly-once delivery",
         "rules": [r_m1.rule_atom, r_m1.rule_one, r_m1.rule_prov, r_m1.rule_amt, r_m1.rule_clamp, r_m1.rule_endguard,
-                  r_m1.rule_complete, r_m1.rule_ctor, r_ticket.rule_ticket, r_ticket.rule_gate, r_live.rule_amt_pub, r_m1.rule_exact, r_fwd.rule_siblings, r_paths.rule_paths],
+                  r_m1.rule_complete, r_m1.rule_ctor, r_ticket.rule_ticket, r_ticket.rule_gate, r_live.rule_amt_pub, r_m1.rule_exact, r_fwd.rule_siblings, r_paths.rule_paths, r_fwd.rule_wrap],
         "explanation": "Decides that the code is an instance of the fetch_add-interval protocol (DESIGN 1.2, M1/M2): for every "
                        "world (5 implementors + 4 adaptor instantiations) x every pull unit (single, one-shot chunk, buffered) "
                        "the unit is evaluated with crate-local callees inlined; rules: ATOM (who may write the counters; no "
@@ -36,7 +36,7 @@ PROPS = {
     },
     "C02": {
         "title": "index fidelity",
-        "rules": [r_m1.rule_prov, r_m1.rule_atom, r_live.rule_amt_pub, r_m1.rule_exact, r_fwd.rule_each, r_fwd.rule_fwd],
+        "rules": [r_m1.rule_prov, r_m1.rule_atom, r_live.rule_amt_pub, r_m1.rule_exact, r_fwd.rule_each, r_fwd.rule_fwd, r_fwd.rule_wrap],
         "explanation": "PROV: every Next.idx / NextChunk.begin_idx and every storage access index is the reservation result "
                        "itself (for ranges: begin + start, the one permitted addition); ATOM.c: no index from a counter load; "
                        "AMT.pub: the ticket implementor advances now-serving by its full reservation (ticket == position); "
@@ -158,7 +158,7 @@ PROPS = {
     },
     "C12": {
         "title": "for_each / enumerate_for_each / fold",
-        "rules": [r_fwd.rule_each, r_ovf.rule_zero, r_ovf.rule_ovf, r_m1.rule_one, r_ticket.rule_ord],
+        "rules": [r_fwd.rule_each, r_ovf.rule_zero, r_ovf.rule_ovf, r_m1.rule_one, r_ticket.rule_ord, r_fwd.rule_wrap],
         "explanation": "EACH: the three trait defaults pass their arguments unchanged to the algorithms and no implementor "
                        "overrides them; in each algorithm chunk_size > 0 is asserted first (ZERO.a); the single-pull loop and "
                        "the buffered loop exit only on the None of the pull made in that iteration; every Some payload reaches "
